@@ -135,6 +135,7 @@ def main(ctx):
             ctx.require("payload_codec_cases|%s|%s" % (tk, fw))
             if tk != "l1":
                 ctx.require("burst_reads|%s|%s" % (tk, fw))
+    ctx.require("pattern_registration_cases")
 
 
 # ---------------------------------------------------------------------------
@@ -494,7 +495,8 @@ def run_case(case):
             state["calls"].setdefault(i, []).append({
                 "args": list(args), "kwargs": dict(kwargs), "details": details is not None,
                 "progress": bool(details is not None and details.progress is not None),
-                "caller": getattr(details, "caller", None)})
+                "caller": getattr(details, "caller", None),
+                "procedure": getattr(details, "procedure", None)})
             if details is not None and details.progress is not None:
                 state["progress"][i] = details.progress
             if beh.startswith("later:"):
@@ -544,7 +546,8 @@ def run_case(case):
             session.set_payload_codec(JsonEnvelopeCodec())
         for i in range(len(invs)):
             session.register(make_ep(i), "com.proc.%d" % i,
-                             options=RegisterOptions(details_arg="details") if det else None,
+                             options=(RegisterOptions(details_arg="details", match="prefix" if case.get("pattern") else None)
+                                      if det else (RegisterOptions(match="prefix") if case.get("pattern") else None)),
                              **({"check_types": True} if case.get("ep", "").endswith("+ct") else {}))
 
     link = (Link1 if case["level"] == 1 else Link2)(case, {"on_join": on_join})
@@ -577,6 +580,7 @@ def run_case(case):
                                     False if case.get("rp_false") else None),
                                 caller=777 if a == "full" else None)
         return M.Invocation(request or 1001 + i, registration or 500 + i,
+                            procedure=("com.proc.%d.called.sub" % i) if case.get("pattern") else None,
                             args=list(ARGS) if a == "full" else None,
                             kwargs=dict(KWARGS) if a == "full" else None,
                             # not asked for: the detail is absent - or explicitly false
@@ -726,7 +730,11 @@ def judge(acc, case, obs):
         full = inv.get("args", "full") == "full"
         want = {"args": list(ARGS) if full else [], "kwargs": dict(KWARGS) if full else {},
                 "details": bool(case["det"]), "progress": bool(case["det"] and inv["rp"]),
-                "caller": 777 if (full and case["det"]) else None}
+                "caller": 777 if (full and case["det"]) else None,
+                # the procedure actually called: the detail of the INVOCATION for a pattern-based
+                # registration, else the registered URI
+                "procedure": (("com.proc.%d.called.sub" % i) if case.get("pattern") else "com.proc.%d" % i)
+                if case["det"] else None}
         ninv = sum(1 for e, j in case["script"] if e == "inv" and j == i)
         if len(calls) != 1 or calls[0] != want:
             acc.bad("C10|endpoint-arguments|%s|%s" % (tname, fw),
@@ -863,6 +871,11 @@ def job(a):
                             one_case(acc, dict(base, invs=[{"beh": beh, "rp": rp, "args": "full"}],
                                                det=det, script=script, coalesce=False, tb=True))
                             acc.inc("traceback_forwarding_on")
+                        if not coalesce and len(script) == 1 and beh in ("value", "app_error", "later:value"):
+                            # a pattern-based registration: the INVOCATION names the procedure called
+                            one_case(acc, dict(base, invs=[{"beh": beh, "rp": rp, "args": "full"}],
+                                               det=det, script=script, coalesce=False, pattern=True))
+                            acc.inc("pattern_registration_cases")
                         if not coalesce and beh in CODEC_BEHS:
                             # a payload codec is active and the INVOCATION arrives encoded: the same
                             # obligations on the encoded-payload reply paths
